@@ -168,6 +168,13 @@ func TestC07Rounds(t *testing.T) {
 				switch r.Intn(12) {
 				case 0, 1, 2:
 					q := r.Intn(len(cw.pool))
+					if r.Intn(3) == 0 {
+						for j := range cw.kinds {
+							if cw.kinds[j] == "KDeposit" && r.Intn(2) == 0 {
+								q = j
+							}
+						}
+					}
 					amt := pick(r, bi(1), bi(49), bi(50), bi(100), bi(1_000_000), bigRand(r, bi(5_000_000)))
 					if amt.Sign() == 0 {
 						amt = bi(7)
@@ -239,6 +246,26 @@ func TestC07Rounds(t *testing.T) {
 					if r.Intn(2) == 0 {
 						if cur, err := w.s.Oraclekeeper.GetCurrentQueryInCycleList(w.ctx); err == nil {
 							q = cw.qrank(utils.QueryIDFromData(cur))
+						}
+					}
+					if r.Intn(3) == 0 {
+						// a bridge-deposit round whose window ends with this very block (expiration = this height), preferably a
+						// tipped one that already has reports: one more report at the boundary
+						best := -1
+						_ = w.s.Oraclekeeper.Query.Walk(w.ctx, nil, func(k collections.Pair[[]byte, uint64], m oracletypes.QueryMeta) (bool, error) {
+							if m.Expiration == uint64(w.height) {
+								j := cw.qrank(k.K1())
+								if j >= 0 && j < len(cw.kinds) && cw.kinds[j] == "KDeposit" {
+									if best < 0 || (m.HasRevealedReports && m.Amount.IsPositive()) {
+										best = j
+									}
+								}
+							}
+							return false, nil
+						})
+						if best >= 0 {
+							q = best
+							stats["SubmitValue/deposit-at-expiration"]++
 						}
 					}
 					rep := r.Intn(len(w.accts))
